@@ -5,6 +5,8 @@ from .. import cases as K
 from ..layer_a import Engine, proj_default, proj_kinds
 from ..runner import canon
 from . import C01, C03, C04
+from .. import tuple_part as T
+from .. import deleg_part as DP
 
 MODULE = "Props.C18"
 THEOREMS = ["C18_layout_independent", "C18_rejected_together", "C18_patterns_by_method",
@@ -190,20 +192,73 @@ def run(tier, seed):
                 if proj_kinds(bcase, sub) != bp:
                     failures.append((i, f"twin run: world {which} behaves differently from the mock alone", sub, impl[i - 3]))
                     break
+    # the same clause sets written as REAL tuple expressions: one flat tuple / chunks, a random nest of tuples, and an
+    # admissible re-ordering laid out flat; all three must behave like the model on the list and like each other
+    tcases, tmeta = T.targeted_cases(rng, tier), []
+    tmeta = [(None, "targeted")] * len(tcases)
+    pool = [bi for bi, b in enumerate(bases) if T.usable(b) and len(b["terms"]) >= 2]
+    rng.shuffle(pool)
+    for bi in pool[:40 if tier == "quick" else 300]:
+        b = strip(bases[bi])
+        v1 = dict(b, _layout=None, _kind="chunks")
+        v2 = T.relayout(rng, b, "nest")
+        v3 = dict(b, terms=permute_terms(rng, b["terms"]), _layout=None, _kind="perm")
+        for v in (v1, v2, v3):
+            tcases.append(v); tmeta.append((bi, v["_kind"]))
+    timpl, tmodel = T.both("tuples18", tcases)
+    tfail = []
+    first_of = {}
+    for k, (bi, kind) in enumerate(tmeta):
+        pi = proj_kinds(tcases[k], timpl[k])
+        if pi != proj_kinds(tcases[k], tmodel[k]):
+            tfail.append((k, f"tuple layout `{kind}`: implementation differs from the model on the clause list in written order"))
+        elif bi is not None:
+            if bi in first_of and first_of[bi][1] != pi:
+                tfail.append((k, f"tuple layout `{kind}` behaves differently from layout `{tmeta[first_of[bi][0]][1]}` of the same clauses"))
+            first_of.setdefault(bi, (k, pi))
+    if tfail and not failures:
+        k, why = tfail[0]
+        small = tcases[k] if "differently" in why else T.shrink("tuples18", tcases[k], proj_kinds)
+        payload = T.replay_payload("C18", "tuples18", small, proj_kinds, seed, "paired runs C18 (tuple part): " + why)
+        payload["failures_in_run"] = len(tfail)
+        if "differently" in why:
+            j = first_of[tmeta[k][0]][0]
+            payload["compared_with"] = {"layout": tmeta[j][1], "rust_clause": T.D.rust_clause(tcases[j]["terms"], tcases[j].get("_layout")), "observed": timpl[j]}
+        path = C.write_replay("C18", seed, payload)
+        C.violation("C18", path)
+        failures_t = True
+    else:
+        failures_t = False
+    # routing through handles of every receiver kind (trait D: &self, &mut self, self, Rc/Arc sole or shared, Pin), on the original
+    # and on clones: the model (for which routing independence is proved) must predict every outcome and the verdict
+    from . import C15
+    dcases = [C15.gen_case(rng) for _ in range(50 if tier == "quick" else 400)]
+    dn, dpayload = (0, None) if (failures or failures_t) else DP.run_part(
+        "C18", "deleg18", dcases, seed, "correspondence C18 (receiver part): calls routed through the original / clones with every receiver kind vs the model")
+    if dpayload is not None:
+        C.violation("C18", C.write_replay("C18", seed, dpayload))
+        failures_t = True
     distinct = {canon(strip(b)): b for b in bases}
     nt = 0
     for bi, b in enumerate(bases):
         if len({t["mid"] for t in b["terms"]}) >= 2 and runs[4 * bi + 1]["terms"] != b["terms"]:
             nt += 1
     cov = {
-        "obligations": len(obligations) + 1, "discharged": len(obligations) + (0 if failures else 1),
+        "obligations": len(obligations) + 3, "discharged": len(obligations) + (0 if failures else 1) + (0 if tfail else 1) + (0 if dpayload else 1),
+        "receiver_part": {"evaluations": dn, "rule": "C15 generator: clause sets over trait D, calls through every receiver kind on the original and on clones"},
+        "tuple_part": {"evaluations": len(tcases), "kinds": dict(collections.Counter(m[1] for m in tmeta)),
+                       "rule": "flat tuples of every arity 2..16 (adjacent overlapping patterns; ordered clauses only) + base cases written as chunked tuples, "
+                               "as a random nest of tuples and admissibly re-ordered: each equals the model on its clause list, and all layouts of one base agree"},
         "checker_cmd": f"make -C /verif/coq ; ./check C18 --tier {tier}", "trusted_base": C.TRUSTED_BASE,
         "theorems": obligations,
         "correspondence_obligation": "base / permuted / re-routed / twin-interleaved runs: pairwise identical projections and equal to the model",
-        "evaluations": len(runs), "distinct_nontrivial": min(nt, len(distinct)), "rule": RULE,
+        "evaluations": len(runs) + len(tcases) + dn, "distinct_nontrivial": min(nt, len(distinct)), "rule": RULE,
         "samples": [K.harness_line(runs[k], "sample") for k in (1, 2, 3)],
         "distribution": dict(collections.Counter(m[1] for m in meta)),
     }
+    if failures_t:
+        C.write_evidence("C18", tier, seed, cov, time.time() - t0, 1)
+        return 1
     if failures:
         i, why, a, b = failures[0]
         payload = {"property": "C18", "seed": seed, "theorem_or_correspondence": "paired runs C18: " + why,
@@ -216,12 +271,21 @@ def run(tier, seed):
         return 1
     C.write_evidence("C18", tier, seed, cov, time.time() - t0, 0,
                      assumptions=["model/implementation agreement is established on the generated cases only"])
-    print(f"C18: {len(obligations)} theorems closed; {len(runs)} paired co-executions agree ({time.time()-t0:.1f}s)")
+    print(f"C18: {len(obligations)} theorems closed; {len(runs)} paired + {len(tcases)} tuple-layout + {dn} receiver-kind co-executions agree ({time.time()-t0:.1f}s)")
     return 0
 
 
 def replay(path):
     payload = json.load(open(path))
+    if payload.get("part") == "deleg":
+        return DP.replay("C18", payload, path)
+    if payload.get("part") == "tuples":
+        case = payload["case"]
+        ci, cm = T.both("tuples18", [case])
+        print("clause :", payload.get("rust_clause")); print("model  :", cm[0]); print("impl   :", ci[0])
+        if proj_kinds(case, ci[0]) != proj_kinds(case, cm[0]):
+            C.violation("C18", path); return 1
+        print("agree with the model"); return 0
     eng = Engine("C18", project=proj_kinds)
     eng.build()
     cs = [payload["base_case"], payload["case"]]
